@@ -62,7 +62,7 @@ T = {
 
 
 def main() -> None:
-    last = {r["name"]: r for r in json.loads((ROOT / ".work" / "seeded_last.json").read_text())}
+    last = json.loads((ROOT / ".work" / "seeded_results.json").read_text())
     for name, (needs, first, strengthened) in T.items():
         d = ROOT / "seeded" / name
         pid = name[:3]
